@@ -33,6 +33,14 @@ CLAIMS = {
    text="Structural clauses of server robustness, for all paths: one deferred Session.Close covering every exit (returns and panics) after NewSession succeeded; recover in every server goroutine and deferred connection close/unregister; buffered-literal check installed on every server decoder and refusing every size > 4096 (evaluated); APPEND limit dominating accept/read/hand-over of the literal; every input-driven recursion cycle of the call graph depth-bounded (Decoder.List's guard checked, or a capped strictly increasing counter proven around every cycle); IDLE goroutine release and buffered result channel; wire-supplied integers never summed unguarded into a slice bound and compared with a length before use as a bound; every FETCH response writer closed on all paths (interprocedural hand-over summaries). 'other': these are necessary conditions; absence of every panic for every byte stream is not decided.",
    technique="call-graph SCC analysis with ranking-function recognition, must-dataflow pairing rules (defer/close/recover), finite-domain evaluation of the literal cap, taint of wire-sourced integer fields into slice bounds",
    design="§4 C06"),
+ "C08": dict(
+   text="Structural clauses of view consistency: Conn.writeExpunge unreachable from the FETCH/STORE/SEARCH handlers through every Session implementation of the module (call graph VTA + CHA for module interfaces); Conn.poll's permission evaluated for all 36 dispatched labels (false exactly for FETCH/STORE/SEARCH) and consistent between backend and update writer, polled with the dispatched name; message-list mutations paired with the tracker update under the mailbox lock; one delivery channel per expunge for every session method; complete fan-out in the tracker; FETCH responses of the backend carry EncodeSeqNum's result tested non-zero. 'other': necessary conditions; that the sequence numbers themselves are right is C07's value-level arithmetic and is not decided.",
+   technique="absence-of-reachability over the module call graph, exhaustive finite-domain evaluation of poll, pairing and control-dependence rules over go/ssa",
+   design="§4 C08"),
+ "C09": dict(
+   text="Structural clauses of the in-memory backend's mailbox semantics: UID allocation (uidNext written only by the constructor and a locked increment-by-one in appendBytes; the new message gets the pre-increment value); UIDVALIDITY (prevUidValidity only incremented, in Create, and handed to NewMailbox); every flag-map lookup/insert/delete keyed through canonicalFlag (8 sites); wire-supplied integers compared with a length before being used as slice bounds and never summed unguarded. 'other': necessary conditions only; agreement of SEARCH/FETCH/LIST/STATUS results with a reference model is value-level and not decided.",
+   technique="who-may-write and value-shape rules over go/ssa, lockset facts from the lock analysis, wire-integer taint",
+   design="§4 C09"),
  "C10": dict(
    text="Structural clauses behind 'every client command terminates': the reader goroutine's deferred teardown (close(decCh); recover + closeWithError with a provably non-nil error) is registered before the read loop; closeWithError closes the connection, takes the whole pending list and completes each command on every path; removal-by-tag is paired with exactly one completion incl. the deferred error completion; every streaming command's channel is closed by completeCommand and done is sent-then-closed unconditionally; a failed flush closes the client; completion cancels continuation requests and Wait callers honour the error; commands are initialised before publication. 'other': necessary conditions for termination decided on all paths; liveness under each fault offset and the caller's side of the streaming contract are not decided.",
    technique="must-dataflow over go/ssa (deferred teardown, exit coverage, completion counting), type-directed exhaustiveness of channel closing",
